@@ -38,7 +38,7 @@ pub struct FontSpec {
 pub const ENCODINGS: [&str; 5] = ["StandardEncoding", "WinAnsiEncoding", "MacRomanEncoding", "MacExpertEncoding", "SymbolEncoding"];
 
 #[derive(Clone, Debug)]
-pub enum CsSpec { Rgb, Cmyk, Indexed { cmyk_base: bool, hival: u8, lookup: Vec<u8> } }
+pub enum CsSpec { Rgb, Cmyk, Indexed { cmyk_base: bool, hival: u8, lookup: Vec<u8> }, Gray, PatternCs, Named(String), CalRgb { gamma: bool }, CalGray, Lab }
 
 #[derive(Clone, Debug)]
 pub enum XoSpec {
@@ -235,9 +235,15 @@ fn gen_gs(src: &mut Src, has_font: bool) -> (Dictionary, Option<f32>) {
 }
 
 fn gen_cs(src: &mut Src) -> CsSpec {
-    match src.alt(2, &["cs-rgb", "cs-cmyk", "cs-indexed"]) {
+    match src.alt(2, &["cs-rgb", "cs-cmyk", "cs-indexed", "cs-gray", "cs-pattern", "cs-named", "cs-calrgb", "cs-calgray", "cs-lab"]) {
         0 => CsSpec::Rgb,
         1 => CsSpec::Cmyk,
+        3 => CsSpec::Gray,
+        4 => CsSpec::PatternCs,
+        5 => CsSpec::Named(["DefaultRGB", "Cs 1", "X#Y"][src.draw(3) as usize].to_string()),
+        6 => CsSpec::CalRgb { gamma: src.draw(2) == 1 },
+        7 => CsSpec::CalGray,
+        8 => CsSpec::Lab,
         _ => {
             let cmyk_base = src.draw(2) == 1;
             let comps = if cmyk_base { 4 } else { 3 };
